@@ -191,6 +191,7 @@ def finish(res: Result) -> int:
 # process pool that tolerates workers which must die (deadlocked executions)
 
 EXIT_POISONED = 17
+TASKS_PER_WORKER = int(os.environ.get("VERIF_TASKS_PER_WORKER", "300"))
 
 
 def _pool_worker(fn, init, tq, rq):
@@ -202,10 +203,17 @@ def _pool_worker(fn, init, tq, rq):
         rq.close()
         rq.join_thread()
         os._exit(3)
+    served = 0
     while True:
+        if served >= TASKS_PER_WORKER:
+            # a long-lived interpreter accumulates garbage of past executions (old schedulers, plans); start afresh
+            rq.close()
+            rq.join_thread()
+            os._exit(0)
         item = tq.get()
         if item is None:
             os._exit(0)
+        served += 1
         idx, task = item
         rq.put(("start", idx, os.getpid()))
         try:
